@@ -28,22 +28,38 @@ def names_for(poly_trend, n_offsets):
 def var_obj(name):
     """a candidate prior variable with one symbolic flag per validation question"""
     unit = Obj("Unit", {"name": f"unit_of_{name}"})
-    flags = {q: z3.Bool(f"{name}.{q}") for q in ("has_unit", "unit_equivalent", "has_owner", "is_random_variable")}
+    # the unit the user attached: an arbitrary physical dimension (time, length, angle exponents)
+    unit.fields["symdim"] = tuple(z3.Int(f"{name}.unit.{d}") for d in A.DIMS)
+    flags = {q: z3.Bool(f"{name}.{q}") for q in ("has_unit", "has_owner", "is_random_variable")}
     pname = Opaque(f"{name}.print_name", z3.Const(f"{name}.print_name", PyObj))
     op = Obj("Op", {"_print_name": PyList([pname, "tex"], None, True)})
     op.type_pred = lambda short, f=flags["is_random_variable"]: f
     owner = Obj("Apply", {"op": op})
     v = Obj("TensorVariable", {"name": name, "__tensor_unit__": unit, "owner": owner, "flags": flags, "print_name": pname})
     v.fields["__hasattr__"] = lambda a, flags=flags: {"__tensor_unit__": flags["has_unit"], "owner": flags["has_owner"]}.get(a, False)
-    unit.fields["equiv_flag"] = flags["unit_equivalent"]
     return v
+
+
+def canonical_dim(name):
+    """the canonical units of the property: P a time, e a number, omega / M0 angles, s / K / v0 / offsets velocities, v_i a velocity per time**i"""
+    if name == "P":
+        return (1, 0, 0)
+    if name == "e":
+        return (0, 0, 0)
+    if name in ("omega", "M0"):
+        return (0, 0, 1)
+    if name in ("s", "K") or name.startswith("dv0_"):
+        return (-1, 1, 0)
+    return (-1 - int(name[1:]), 1, 0)
 
 
 @model("Unit.is_equivalent")
 def _is_equiv_sym(ex, path, args, kwargs, node, fn):
     a = args[0]
-    if "equiv_flag" in a.fields:
-        return a.fields["equiv_flag"]
+    if "symdim" in a.fields:
+        if not A.is_unit(args[1]) or "dim" not in args[1].fields:
+            raise Unsupported("is_equivalent against something that is not a known unit")
+        return z3.And(*[s_ == d for s_, d in zip(a.fields["symdim"], args[1].fields["dim"])])
     return _prev_equiv(ex, path, args, kwargs, node, fn)
 
 
@@ -131,7 +147,8 @@ def _ok_var(ex, path, args, kwargs, node, fn):
     n_ = args[0]
     v = path.ghost["vars"][n_]
     pres = path.ghost["present"].get(n_, True)
-    return z3.And(to_z3(pres), v.fields["flags"]["has_unit"], v.fields["flags"]["unit_equivalent"])
+    sd = v.fields["__tensor_unit__"].fields["symdim"]
+    return z3.And(to_z3(pres), v.fields["flags"]["has_unit"], *[s_ == d for s_, d in zip(sd, canonical_dim(n_))])
 
 
 @model("ok_linear", doc="spec: the linear parameter's prior is a random variable whose distribution is Normal (or the FixedCompanionMass Normal)")
@@ -163,6 +180,8 @@ def prior_contracts():
             "every-linear-and-offset-prior-is-normal": " and ".join(f"ok_linear('{n_}')" for n_ in lin + off),
             "parameter-order-nonlinear-linear-offsets": f"self.par_names == {nl + lin + off!r}",
             "stores-the-validated-parameters": "self.pars is pars",
+            # the kernel helper reads the k-th offset prior as the prior of the k-th further survey's column (C08)
+            "offset-priors-kept-in-the-given-order": " and ".join([f"len(self.v0_offsets) == {no}"] + [f"self.v0_offsets[{i}] is v0_offsets[{i}]" for i in range(no)]),
         }
         out.append(Contract(PR + "JokerPrior.__init__", PROPERTY,
                             params={"self": self_param, "pars": pars_param(pt_, no), "poly_trend": ("const", pt_),
@@ -177,7 +196,8 @@ def _pars_entry(ex, path, args, kwargs, node, fn):
 
 
 LIB["pars_entry"] = _pars_entry
-CONTRACTS = prior_contracts()
+from . import unitmaps as _UM
+CONTRACTS = prior_contracts() + _UM.contracts(PROPERTY)
 CALLEES = {PR + "_validate_model": validate_model_callee,
            PR + "JokerPrior.n_offsets": n_offsets_prop, "JokerPrior.n_offsets": n_offsets_prop,
            PR + "JokerPrior.par_names": par_names_prop, "JokerPrior.par_names": par_names_prop}
@@ -248,7 +268,7 @@ def sources_param(K):
         flags = []
         for k in range(K):
             n = z3.Int(f"n_{k}")
-            path.assume(n >= 1)
+            path.assume(n >= 0)        # a survey whose rows were all non-finite is an (empty) RVData too: it contributes no epoch and no column
             isrv, hascov = z3.Bool(f"src{k}.is_RVData"), z3.Bool(f"src{k}.has_cov")
             o = Obj("source", {"_has_cov": hascov, "__len__": n, "t": A.time_obj(fresh_arr(f"t_{k}", 1, "real", [n])),
                                "rv": A.quantity(fresh_arr(f"rv_{k}", 1, "real", [n]), A.U_KM), "rv_err": A.quantity(fresh_arr(f"e_{k}", 1, "real", [n]), A.U_KM)},
@@ -269,10 +289,25 @@ def _all_src_ok(ex, path, args, kwargs, node, fn):
 LIB["all_sources_ok"] = _all_src_ok
 from .c08 import ctor as _ctor, trend_callee as _trend   # noqa: E402
 
+def _res_trend_shape(ex, path, bound, node):
+    """get_trend_design_matrix as a callee: the shape proved in C08 (`trend_matrix/shape`): one row per epoch, one column per distinct survey label
+    plus one per further trend term"""
+    data, ids, pt_ = bound["data"], bound["ids"], bound["poly_trend"]
+    n = data.fields["__len__"]
+    if ids is None:
+        return fresh_arr("trend_M", 2, "real", [n, to_z3(pt_)])
+    uq = _L["numpy.unique"](ex, path, [ids], {}, node, None)
+    return fresh_arr("trend_M", 2, "real", [n, to_z3(uq.shape[0]) + to_z3(pt_) - 1])
+
+
+_trend_shape = Contract("thejoker.likelihood_helpers.get_trend_design_matrix", "C08", ensures={}, result=_res_trend_shape)
+
 vpd_checks = [Contract("thejoker.data_helpers.validate_prepare_data", PROPERTY,
-                       params={"data": sources_param(K), "poly_trend": "pos", "n_offsets": "int"},
+                       params={"data": sources_param(K), "poly_trend": "pos", "n_offsets": "nat"},
                        cases=[{"_name": f"dict,K={K}"}],
-                       ensures={"every-source-is-an-RVData-without-covariance": "all_sources_ok()"})
+                       ensures={"every-source-is-an-RVData-without-covariance": "all_sources_ok()",
+                                # the marginalisation is exact only for the model the priors describe: one column per linear parameter
+                                "one-design-matrix-column-per-linear-parameter": "result[2].shape[1] == 1 + n_offsets + (poly_trend - 1)"})
               for K in (2, 3)]
 
 
@@ -287,7 +322,7 @@ vpd_single = Contract("thejoker.data_helpers.validate_prepare_data", PROPERTY,
                       ensures={"single-source-means-no-offsets": "n_offsets == 0"})
 
 CONTRACTS += thejoker_init + vpd_checks + [vpd_single]
-CALLEES.update({"thejoker.data.RVData": _ctor, "thejoker.data.RVData.__init__": _ctor, "thejoker.likelihood_helpers.get_trend_design_matrix": _trend})
+CALLEES.update({"thejoker.data.RVData": _ctor, "thejoker.data.RVData.__init__": _ctor, "thejoker.likelihood_helpers.get_trend_design_matrix": _trend_shape})
 
 # every call prepares and uses THIS call's data, whatever earlier calls left on the sampler (contract stated in c08.py)
 from . import c08 as _C08H   # noqa: E402
